@@ -561,7 +561,11 @@ def bret_run_case(case, universe):
 # `tick` is an instrumented Python callable (counts how often a body runs); :{[1 2]}@x raises KeyError for x other than 1:
 # a failure inside the function that has the class of the wrapper's own "name was deleted" signal
 C_BODIES_Q = [('{7}', 0), ('{x+1}', 1), ('{-x}', 1), ('{1,,x}', 1), ('{x-y}', 2), ('{y,x}', 2), ('{(x*100)+(y*10)+z}', 3),
-              ('{tick(0);:{[1 2]}@x}', 1)]
+              ('{tick(0);:{[1 2]}@x}', 1),
+              # projections stored under the name (pp::{x-y}, pt::{x,y,z} are predefined): they take as many arguments as they
+              # have holes
+              ('pp(3;)', 1), ('pp(;7)', 1), ('pt(;2;)', 2)]
+C_PRELUDE = 'pp::{x-y};pt::{x,y,z}'
 C_BODIES_T = C_BODIES_Q + [('{[1 2]}', 0), ('{x}', 1), ('{#x}', 1), ('{(-x),-y}', 2), ('{z,y,x}', 3)]
 C_BODIES_B = [('{x+1}', 1), ('{x-y}', 2)]
 C_PY = [1, 2]                      # arities of the instrumented Python callables of phase B
@@ -667,6 +671,7 @@ class CEnv:
         self.ticks = []
         self.tick_fn = lambda x: (self.ticks.append(1), 0)[1]
         self.kl['tick'] = self.tick_fn
+        self.kl(C_PRELUDE)
 
     def do(self, op):
         """Execute op on the real interpreter; returns outcome."""
@@ -771,6 +776,7 @@ def c_judge(env, op, hist):
             else:
                 twin = KlongInterpreter()
                 twin['tick'] = env.tick_fn
+                twin(C_PRELUDE)
                 twin('f::' + bodies[target[1]][0])
                 ref = outcome(lambda: twin(call))
             ticks_ref = len(env.ticks) - n_ticks
